@@ -208,6 +208,12 @@ func (sc *StateContext) AddTransfer(t *state.Transfer) error {
 	if !encryption.IsHash(t.ToClientID) {
 		return errors.New("invalid transaction ToClientID")
 	}
+	// Account ids are lower-case hex. The state trie branches on hex digits case-insensitively but
+	// compares leaf paths byte-wise, so crediting another spelling of an existing id ("AB12…" for
+	// "ab12…") debits the sender while the credit is lost.
+	if t.ToClientID != strings.ToLower(t.ToClientID) {
+		return errors.New("invalid transaction ToClientID")
+	}
 	sc.transfers = append(sc.transfers, t)
 	verifObsTransfer(sc, t)
 
